@@ -41,7 +41,79 @@ def warm() -> None:
         r.collapse(quiet=True).fold(0.0103, nbins=2, nints=2)
 
 
+def generate_long(rng) -> dict:
+    """A fold of ten million samples at a period within a few float32 ulps of a whole number of samples: the phase
+    error of a period that is off by one part in 10^7 reaches a whole bin only after ~10^7 samples.  No 600-sample
+    fold can tell such a period from its neighbour."""
+    k = rng.choice([7, 16, 50, 63, 100])
+    return {"kind": "tim-long", "k": k, "ulps": rng.choice([1, -1, 1, -1, 2, -3, 0]), "n": rng.choice([(1 << 24), 12000017, (1 << 24) + 5]),
+            "nbins": rng.choice([k, k, max(2, k // 2), min(64, k)]), "nints": rng.choice([1, 4, 16]), "vseed": rng.randrange(1 << 16),
+            "ratio": float(k), "accel": 0.0, "faults": [], "ops": [{"gulp": 1}]}
+
+
+def execute_long(sc, ctx) -> None:
+    from sigpyproc.timeseries import TimeSeries
+
+    from .c04 import base_header
+
+    n, k, nbins, nints = int(sc["n"]), int(sc["k"]), int(sc["nbins"]), int(sc["nints"])
+    ts32 = np.float32(TSAMP)
+    p32 = np.float32(k) * ts32
+    for _ in range(abs(int(sc["ulps"]))):
+        p32 = np.nextafter(p32, np.float32(np.inf if sc["ulps"] > 0 else -np.inf), dtype=np.float32)
+    period = float(p32)  # exactly representable in float32: what the caller asks for is what the kernel receives
+    ctx.probe("long-fold(>=10^7-samples)")
+    if sc["ulps"]:
+        ctx.probe("period-a-few-float32-ulps-from-a-whole-number-of-samples")
+    ctx.sig += ["tim-long", f"ulps{sc['ulps']}"]
+    info = {"api": "TimeSeries.fold", "n": n, "period": period, "k": k, "ulps": sc["ulps"], "nbins": nbins, "nints": nints}
+
+    def mk(clause, detail):
+        return Violation(f"C11/TimeSeries.fold/{clause}/long", detail, info)
+
+    hdr = base_header(ctx, 1).new_header({"nchans": 1, "nbits": 32, "tsamp": TSAMP, "nsamples": n, "data_type": "time series"})
+    t = np.arange(n, dtype=np.float64)
+    ts = float(np.float32(hdr.tsamp))
+    phase = nbins * (t * ts) / period + 0.5  # the documented formula at accel = 0
+    fl = np.floor(phase)
+    frac = phase - fl
+    amb = (frac < 1e-4) | (frac > 1 - 1e-4)  # the last bits of the evaluation would decide: judged with a tolerance below
+    pbin = (fl.astype(np.int64)) % nbins
+    other = np.where(frac < 0.5, pbin - 1, pbin + 1) % nbins  # the bin across the nearest edge
+    sub = (np.arange(n, dtype=np.int64) * nints) // n
+    # 0/1 data: every cell sum is an integer below 2^24, hence exact in the float32 accumulator whatever the order.
+    # A pulse of one sample every k samples, plus random bits half a period later.
+    ti = np.arange(n, dtype=np.int64)
+    bits = (filgen._mix(int(sc["vseed"]), ti, np.zeros(n, dtype=np.int64)) & np.uint64(1)).astype(np.float32)
+    data = np.where(ti % k == 0, np.float32(1), np.where(ti % k == k // 2, bits, np.float32(0))).astype(np.float32)
+    del ti, bits
+    data[amb] = 0.0  # ambiguous samples carry no power: only the hit count of two neighbouring cells is uncertain
+    cell = sub * nbins + pbin
+    ncell = nints * nbins
+    sums = np.bincount(cell[~amb], weights=data[~amb].astype(np.float64), minlength=ncell)
+    cdef = np.bincount(cell[~amb], minlength=ncell)
+    camb = np.bincount(cell[amb], minlength=ncell) + np.bincount((sub * nbins + other)[amb], minlength=ncell)
+    del phase, fl, frac, t
+    try:
+        cube = np.asarray(TimeSeries(data, hdr).fold(period, 0.0, nbins=nint(nbins), nints=nint(nints)).data, dtype=np.float64).reshape(ncell)
+    except Exception as e:  # noqa: BLE001
+        raise mk("raised", repr(e)[:300]) from None
+    hi = sums / np.maximum(cdef, 1)
+    lo = sums / np.maximum(cdef + camb, 1)
+    tol = 1e-6 * np.maximum(1.0, hi)  # sums and counts are exact integers: only the final division rounds
+    ok = (cube >= lo - tol) & (cube <= hi + tol)
+    ok |= (cdef == 0)
+    if not ok.all():
+        j = int(np.argmax(~ok))
+        raise mk("cell-not-mean-of-its-samples", f"{int((~ok).sum())} of {ncell} cells differ, first (subint, bin)=({j // nbins}, {j % nbins}): got {cube[j]!r}, "
+                                                 f"the samples the phase formula assigns to it have mean in [{lo[j]:.6f}, {hi[j]:.6f}] ({int(cdef[j])} samples, {int(camb[j])} within 1e-4 bin of its edges)")
+    ctx.probe("compared-cube")
+    ctx.log("tim-long", n, k, sc["ulps"], int(amb.sum()), zlib.crc32(np.round(cube, 2).tobytes()))
+
+
 def generate(rng, tier) -> dict:
+    if rng.random() < (0.003 if tier == "quick" else 0.01):
+        return generate_long(rng)
     kind = rng.choice(["fil", "fil", "fil", "tim"])
     pulse = rng.random() < 0.12
     ratio = rng.choice([7.0, 10.0, 10.001, 3.3333, 12.5, 4.0, 8.0, 16.0, 32.0, round(rng.uniform(2.5, 40.0), 4), rng.randint(3, 20) + rng.choice([0.0, 1e-3, -1e-3])])
@@ -109,6 +181,11 @@ def _resolve_accel(rng, accel, nsamp_total):
 def fixup(sc):
     for k in ("nbins", "nints"):
         sc[k] = max(1, sc[k])
+    if sc["kind"] == "tim-long":
+        sc["n"] = max(1000, int(sc["n"]))
+        sc["k"] = max(2, int(sc["k"]))
+        sc["nbins"] = max(2, min(int(sc["nbins"]), 64))
+        return sc if sc["n"] // (sc["nbins"] * sc["nints"]) >= 10 else None
     if sc["kind"] == "fil":
         f = sc["files"]
         if f["nbits"] not in (1, 2, 4, 8, 16, 32) or f["nchans"] < 2 or (f["nchans"] * f["nbits"]) % 8:
@@ -223,6 +300,8 @@ def execute(sc, ctx) -> None:
 
     kind = sc["kind"]
     ctx.probe(f"kind:{kind}")
+    if kind == "tim-long":
+        return execute_long(sc, ctx)
     ts32 = np.float32(TSAMP)
     period = sc["ratio"] * TSAMP
     p32, a32 = np.float32(period), np.float32(sc["accel"])
